@@ -154,7 +154,16 @@ CHECKS["C17"] = (
     "5'-partial <=> first codon not a start of the table, 3'-partial <=> not ending in frame on a stop, codon_start = frame+1, pseudo "
     "<=> in-frame stop, mRNA omitted in the prokaryotic flavour; adjacent CDS blocks merged; seeded output byte-identical.",
     _NOTE, "DESIGN.md §3 C17")
-for _p in ["C10"]:
+CHECKS["C10"] = (
+    _CH + ": the SCHEDULE of operations is the symbolic variable (real memoisation on, bodies run natively), plus one inductive step over lazy-slot states with symbolic coordinates",
+    "H2: for location, sequence-bearing location, CDS, transcript, feature, gene, feature collection and annotation collection "
+    "objects on whole-chromosome and chunk parents, EVERY schedule of 2 (quick) / 3 (thorough) operations from a 13-24 operation "
+    "catalogue per class (incl. evicting the 1000-entry global Parent cache and using an unrelated twin) is closed by the solver: "
+    "the last answer equals a fresh twin's in value AND type, and the object's snapshot (str, to_dict, hash, guid, blocks, qualifiers, "
+    "children's dictionaries/qualifiers/blocks) is unchanged. H1: with unbounded symbolic coordinates, after filling the hand-written "
+    "lazy slots of a CompoundInterval every accessor answers as on an untouched twin.",
+    _NOTE + " Histories longer than 3 operations and multi-threaded use are outside the claim.", "DESIGN.md §3 C10")
+for _p in []:
     NOT_APPLICABLE[_p] = "check not built yet (build in progress; see DESIGN.md §3 for the planned solver-based check)"
 NOT_APPLICABLE["C12"] = ("GenBank writer cannot emit a feature on the installed Biopython (SeqFeature(strand=) TypeError), the "
                          "parser needs the absent PyVCF module, and the oracle is third-party text parsing (Bio.SeqIO): nothing "
